@@ -1621,6 +1621,10 @@ func init() {
 			for i := 0; i < c.N(150, 3000); i++ {
 				kC16FromFile.Do(c, g.fromFileCase())
 			}
+			// 10. texts of --argjson / --jsonargs that are (not) exactly one JSON value
+			for _, t := range c16ArgTextCases() {
+				kC16ArgText.Do(c, t)
+			}
 			// 9. more files than descriptors
 			for _, t := range c16ManyCases(c.Quick()) {
 				kC16Many.Do(c, t)
